@@ -113,6 +113,25 @@ def record_map_phase(b, n):
         b.sig(f"record-map|{direction}|{how}|{entry}")
 
 
+def tied_limit(case, frames, engine="pandas"):
+    """True if some order_rows(limit=k) of the pipeline has rows with equal order keys in its own input, as evaluated by
+    the same engine (Polars and Pandas differ on null comparisons, so ties differ too)"""
+    from vf.compare import to_rows
+
+    for n in B.walk(case["recipe"]):
+        if n["op"] == "order_rows" and n.get("limit") is not None:
+            try:
+                fr = {k: v.copy() for k, v in frames.items() if k in B.tables_of(n["src"])}
+                ops = B.build(n["src"])
+                src = backends.run_pandas(ops, fr) if engine == "pandas" else backends.run_polars(ops, {k: v.reset_index(drop=True) for k, v in fr.items()})
+                keys = to_rows(src, list(n["cols"]))
+                if len(set(keys)) < len(keys):
+                    return True
+            except Exception:
+                return True
+    return False
+
+
 def run_batch(seed, batch, tier):
     import data_algebra
     import polars as pl
@@ -185,6 +204,11 @@ def run_batch(seed, batch, tier):
             # returns groups in an unspecified order, which is not a difference between two *tables*
             fo = case.get("final_order")
             m = frames_match(results[0], results[1], ordered_by=fo[0] if fo else None)
+            if m and tied_limit(case, base, engine):
+                # which of several rows tied at the cut of order_rows(limit=k) are kept is not fixed by any property
+                # (C18: "the first `limit` rows of that order"); Polars' parallel sort picks differently between runs
+                b.count("limit_with_ties_not_judged", engine)
+                m = None
             if m:
                 b.violation("not-repeatable", f"({engine}, {how}, {entry}) {m}\npipeline: {diff.describe(case)}",
                             case=diff.case_json(case, {"presentation": how, "engine": engine, "entry": entry}))
